@@ -447,6 +447,9 @@ func genHistory(g *genCtx, profile string) {
 	for i := 0; i < nOps; i++ {
 		g.step(profile)
 	}
+	if !alive() {
+		return
+	}
 	if r.Chance(50) {
 		g.emit("checkdb F")
 	}
@@ -520,8 +523,23 @@ func chainLen(n *node) uint64 {
 	return s + 1
 }
 
+func alive() bool {
+	if world == nil {
+		return false
+	}
+	for _, n := range world.nodes {
+		if n.v == nil || n.db == nil {
+			return false
+		}
+	}
+	return true
+}
+
 func (g *genCtx) step(profile string) {
 	r := g.r
+	if !alive() {
+		return // a node failed to restart: nothing more can be generated against it (already reported)
+	}
 	P, F := g.node("P"), g.node("F")
 	c := r.Intn(100)
 	if profile == "c05" {
@@ -763,7 +781,7 @@ func crashGen(r *Rng, tier string, emit func(string)) {
 			continue
 		}
 		nOps := 6 + r.Intn(8)
-		for i := 0; i < nOps; i++ {
+		for i := 0; i < nOps && alive(); i++ {
 			c := r.Intn(100)
 			switch {
 			case c < 40:
@@ -791,7 +809,13 @@ func crashGen(r *Rng, tier string, emit func(string)) {
 				g.emit("rebuild F " + []string{"history", "histtxns", "addrindex"}[r.Intn(3)])
 			}
 		}
+		if !alive() {
+			continue
+		}
 		g.emit("rebuild F " + []string{"history", "histtxns", "addrindex"}[r.Intn(3)])
+		if !alive() {
+			continue
+		}
 		g.emit("rminv F")
 		last := len(c8Snaps) - 1 // index of the last snapshot
 		// boundaries to restart from: always the three start-up ones + a sample (all in thorough)
